@@ -33,7 +33,44 @@ func drawBytes(t *rapid.T, n int, label string) []byte {
 			b[i] = byte(seed >> 8)
 		}
 	}
+	if seed%8 == 5 && n >= 5 {
+		// bytes that LOOK like CBOR / COSE structure when scanned for: a map
+		// key of one of the profiles followed by a well-formed value head
+		// (e.g. eat_profile followed by a text string), envelope heads,
+		// break / null / empty-map codes, 0x00 or 0xff at either end
+		fr := byteFragments[int(seed>>3)%len(byteFragments)]
+		if len(fr) > n {
+			fr = fr[:n]
+		}
+		at := 0
+		if n > len(fr) {
+			at = int(seed>>11) % (n - len(fr) + 1)
+		}
+		copy(b[at:], fr)
+	}
+	if seed%16 == 9 && n > 0 {
+		b[n-1] = []byte{0x00, 0xff, 0x00, 0x80}[(seed>>4)%4]
+		if (seed>>6)%2 == 0 {
+			b[0] = b[n-1]
+		}
+	}
 	return b
+}
+
+var byteFragments = [][]byte{
+	append([]byte{0x19, 0x01, 0x09, 0x78, 0x18}, "http://arm.com/psa/2.0.0"...),
+	{0x19, 0x01, 0x09, 0x61, 0x41},
+	{0x19, 0x01, 0x09, 0x60},
+	append([]byte{0x19, 0x01, 0x09, 0x72}, "PSA_IOT_PROFILE_1"...),
+	append([]byte{0x3a, 0x00, 0x01, 0x24, 0xf7, 0x72}, "PSA_IOT_PROFILE_1"...),
+	{0x3a, 0x00, 0x01, 0x24, 0xf9, 0x19, 0x30, 0x00},
+	{0x19, 0x09, 0x5b, 0x19, 0x60, 0x00},
+	{0x0a, 0x58, 0x20},
+	{0xd2, 0x84, 0x43, 0xa1, 0x01, 0x26, 0xa0},
+	{0xff, 0xff, 0xf6, 0xa0, 0xbf},
+	{0xd9, 0x02, 0x59, 0xa0},
+	[]byte(`"psa-nonce":"AA=="`),
+	[]byte(`,"eat-profile":"x"}`),
 }
 
 var interestingTexts = []string{
@@ -43,6 +80,11 @@ var interestingTexts = []string{
 	"https://psa-verifier.org", "very long text very long text very long text very long text very long text",
 	// texts that equal member names, keys and profile names
 	"eat-profile", "psa-profile", "psa-client-id", "psa-verification-service-indicator", "x-profile", "timestamp", "PSA_IOT_PROFILE_1", "http://arm.com/psa/2.0.0", "265", "-75000",
+	// the hash algorithm names of the IANA registry the PSA specifications
+	// point at for the measurement description, and other spellings of them
+	"md2", "md5", "sha-1", "sha-224", "sha-256", "sha-384", "sha-512", "shake128", "shake256", "SHA256", "Sha-512", "SHA_384", "sha256", "SHA-1",
+	// punctuation that matters to somebody's regular expression or format string
+	"[.text, .rodata, ]", "https://x/{v1,}", ",}", ", ]", "a,\n}", "100%", "%w", "%s%d%v", "1.4.0+rc%2", "%!s(MISSING)", "$1", "\\1", "a=b&c=d", "+1-2=3",
 }
 
 func drawText(t *rapid.T, label string, allowEmpty bool) string {
